@@ -132,6 +132,11 @@ def operators():
     cl('two-different', True, [b'5', b'7'])
     cl('2pow64', False, [b'18446744073709551616'])
     cl('empty', True, [b''])
+    cl('non-ascii-digit', True, [b'1\xe9'])                  # error pages that quote the value contain non-ASCII text
+    cl('unicode-escape', True, [b'\\u20ac5'])
+    cl('two-different-non-ascii', True, [b'5', b'\xe2\x82\xac'])
+    hd('host-port-non-ascii', False, lambda h: [x for x in h if not x.lower().startswith(b'host')] + [b'Host: example.test:8\xe9'])
+    hd('host-port-escape', False, lambda h: [x for x in h if not x.lower().startswith(b'host')] + [b'Host: example.test:\\u20ac'])
 
     def ch(name, sure, size):
         def f(s):
@@ -270,17 +275,17 @@ def parse_responses(data):
     return out, None
 
 
-def run_input(data, cut=None, rest=False):
-    obs = run_input_once(data, cut, rest)
+def run_input(data, cut=None, rest=False, debug=False):
+    obs = run_input_once(data, cut, rest, debug)
     if obs.get('cpu', 0) > STALL_CPU_SECONDS / 4:
         # first-use costs (lazy imports, regular expressions compiled on first use) are not stalls: only what a repeated,
         # identical delivery still costs counts
-        again = run_input_once(data, cut, rest)
+        again = run_input_once(data, cut, rest, debug)
         obs['cpu'] = min(obs['cpu'], again.get('cpu', 0))
     return obs
 
 
-def run_input_once(data, cut=None, rest=False):
+def run_input_once(data, cut=None, rest=False, debug=False):
     """deliver data (or its prefix of length cut; with rest=True the remainder follows as a second read), probe the loop,
     disconnect; return observation dict"""
     import time
@@ -289,9 +294,23 @@ def run_input_once(data, cut=None, rest=False):
     try:
         sock = w.new_sock()
         Echo.sentinel = 0
+        if debug:
+            w.server.display_banner = True     # what a real server has by default: error pages show the traceback
         t0 = time.thread_time()
-        w.feed(sock, data if cut is None else data[:cut])
-        if rest and cut is not None and sock not in w.closed:
+        if rest == 'burst' and cut is not None:
+            # the second read is dispatched in the very next flush pass (what a server whose socket stays readable does:
+            # one read event per loop iteration), i.e. before the events fired while handling the first have run their course
+            from circuits.net.events import read as _read_event
+            w.root.fire(_read_event(sock, data[:cut]), 'web')
+            w.root.flush()
+            w.root.fire(_read_event(sock, data[cut:]), 'web')
+            w.settle()
+        else:
+            w.feed(sock, data if cut is None else data[:cut])
+        if rest and rest != 'burst' and cut is not None:
+            # (also when the component has already asked for the connection to be closed: a close takes effect only once
+            # buffered output is flushed and the reads already under way have been delivered - what arrives until then
+            # still reaches the component, which must not answer it)
             w.feed(sock, data[cut:])
         obs['cpu'] = time.thread_time() - t0
         w.root.fire(Event.create('sentinel'), 'web')
@@ -368,9 +387,14 @@ def _work(part, nparts, payload):
         if idx % nparts != part:
             continue
         cuts = truncations(data) if '+' not in name else []
-        cases = [(None, False)] + [(c, False) for c in cuts] + [(c, True) for c in cuts if c < 200]
+        cases = [(None, False), (None, 'debug')] + [(c, False) for c in cuts] + [(c, True) for c in cuts if c < 200] + \
+            [(c, 'burst') for c in cuts if c < 200]
         for cut, rest in cases:
-            obs = run_input(data, cut, rest)
+            debug = rest == 'debug'
+            rest = False if debug else rest
+            obs = run_input(data, cut, rest, debug)
+            if debug:
+                st.counters['deliveries_with_traceback_pages'] += 1
             st.executions += 1
             st.transitions += 3   # deliver, probe, disconnect
             st.interesting((name, cut, rest))
@@ -385,8 +409,9 @@ def _work(part, nparts, payload):
                 st.counters['two_segment_deliveries'] += 1
             for kind, text in judge(name, data, sure, obs, cut is not None and not rest):
                 st.fail(kind + (':two-segments' if rest else ''), '%s [input %s%s: %r...]' % (
-                    text, name, '' if cut is None else (' cut in two reads at %d' % cut if rest else ' truncated at %d' % cut), data[:70]),
-                    {'name': name, 'cut': cut, 'rest': rest, 'tier': tier})
+                    text, name, '' if cut is None else ((' cut in two reads at %d' % cut) + (' (second read dispatched in the next flush pass)' if rest == 'burst' else '')
+                                                        if rest else ' truncated at %d' % cut), data[:70]),
+                    {'name': name, 'cut': cut, 'rest': rest, 'tier': tier, 'debug': debug})
             if cut is None and len(st.samples) < 2 and 'clen' in name:
                 st.sample({'input': name, 'bytes': data[:200].decode('latin1'), 'written': obs['written'][:120].decode('latin1'), 'closed': obs['closed']})
     # ladders: malformed AND over-long inputs of growing length; a ladder is left at the first length whose handling stalls the loop
@@ -434,7 +459,7 @@ def replay(wj):
         return (not bad), text
     for name, data, sure in inputs(wj.get('tier', 'quick')):
         if name == wj['name']:
-            obs = run_input(data, wj['cut'], wj.get('rest', False))
+            obs = run_input(data, wj['cut'], wj.get('rest', False), wj.get('debug', False))
             bad = judge(name, data, sure, obs, wj['cut'] is not None and not wj.get('rest', False))
             text = 'input %s (cut %r): %r\nwritten: %r\nclosed=%r requests=%r residue=%r sentinel=%r crashed=%r\n' % (
                 name, wj['cut'], data[:300], obs['written'][:300], obs['closed'], obs['requests'], obs['residue'], obs['sentinel'], obs['crashed'])
